@@ -362,6 +362,7 @@ pub struct Payload {
     arc: usize,
     cell: Option<usize>,
     rmw: Option<usize>,
+    panics: bool,
     objs: *const SObjs,
 }
 
@@ -373,6 +374,9 @@ impl Drop for Payload {
         o.payload_drops.borrow_mut()[self.arc] += 1;
         if let Some(c) = self.cell {
             o.cells[c].with_mut(|p| unsafe { *p += 1 });
+        }
+        if self.panics && !std::thread::panicking() {
+            panic!("{}4242", USER_TAG);
         }
         if let Some(a) = self.rmw {
             // like a hand-rolled reference count: a load and an RMW inside a destructor
@@ -668,7 +672,7 @@ fn exec_op(
         }
         K::ArcHold { .. } => unreachable!("handled by exec_held"),
         K::ArcNew { h, arc } => {
-            let p = Payload { arc, cell: prog.objs.arcs[arc], rmw: prog.objs.arc_rmw.get(arc).copied().flatten(), objs: Rc::as_ptr(objs) };
+            let p = Payload { arc, cell: prog.objs.arcs[arc], rmw: prog.objs.arc_rmw.get(arc).copied().flatten(), panics: prog.objs.arc_panic.get(arc).copied().unwrap_or(false), objs: Rc::as_ptr(objs) };
             let a = loom::sync::Arc::new(p);
             *o.handles[h].borrow_mut() = Some(a);
             Res::U
